@@ -200,16 +200,27 @@ def run(ctx, F):
         ctx.ok("F8-lookup-callers", "do_find_file called only by find_file", None)
     else:
         ctx.fail("F8-lookup-callers", "do_find_file called only by find_file", f"callers: {callers}")
-    # the file read is the one found, named by from.url(path)
-    reads = [(bi, t) for bi, t in ff.calls() if (mir.callee_name(t) or "").endswith("SourceFile>::read")]
+    # the file read is the one found, named by from.url(path); the read may sit in a helper that find_file calls
+    helpers = [prog.bodies[mir.callee_name(t)] for bi, t in ff.calls() if mir.callee_name(t) in prog.bodies
+               and mir.callee_name(t).startswith("<input::context::Context<AnyLoader>>::") and mir.callee_name(t) != dff.def_]
+    S2 = sym.Sym(prog, force_inline={h.def_ for h in helpers})
+    reads = []
+    for hb in [ff] + helpers:
+        env = None
+        if hb is not ff:
+            sites = [t for bi, t in ff.calls() if mir.callee_name(t) == hb.def_]
+            env = [S2.operand(ff, a) for a in sites[0]["args"]] if len(sites) == 1 else None
+        reads += [(hb, bi, t, env) for bi, t in hb.calls() if (mir.callee_name(t) or "").endswith("SourceFile>::read")]
     if len(reads) == 1:
-        src = sym.strip_transparent(S.operand(ff, reads[0][1]["args"][1]))
-        if "do_find_file" in repr(src) and "SourceName" in repr(src) or "do_find_file" in repr(src):
+        hb, rb, rt, env = reads[0]
+        src = sym.strip_transparent(S2.operand(hb, rt["args"][1], env=env))
+        fil = sym.strip_transparent(S2.operand(hb, rt["args"][0], env=env))
+        if "do_find_file" in repr(src) and "do_find_file" in repr(fil):
             ctx.ok("F4-read-found-file", "find_file reads the candidate that was found", {"source": sym.show(src)[:160]})
         else:
-            ctx.fail("F4-read-found-file", "find_file reads the candidate that was found", f"source name is `{sym.show(src)[:200]}`", where=ff.where(reads[0][0]))
+            ctx.fail("F4-read-found-file", "find_file reads the candidate that was found", f"SourceFile::read gets `{sym.show(fil)[:120]}` named `{sym.show(src)[:160]}`: not the file and path returned by do_find_file", where=hb.where(rb))
     else:
-        ctx.anchor_lost("find_file read", f"expected one SourceFile::read in find_file, found {len(reads)}")
+        ctx.anchor_lost("find_file read", f"expected one SourceFile::read in find_file (or a helper it calls), found {len(reads)}")
     # ---------------------------------------------------------------- plain css fallback predicate (Import arm)
     hi = prog.one("output::transform::handle_item")
     pre, suf, css_url = url_literals(prog, hi)
@@ -277,10 +288,23 @@ def url_literals(prog, body, param_filter=None):
     return pre, suf, css_url
 
 
+ORDER_ADAPTERS = ("::rev", "::skip", "::step_by", "::take", "::skip_while", "::take_while", "::filter", "::chain", "::cycle", "::zip", "::peekable", "::last", "::nth")
+
+
 def candidate_term(t):
-    """names.iter().map(|f| f(base, name)).next() payload"""
+    """A candidate name built from the rule table in table order, in either spelling:
+         names.iter().map(|f| f(base, name)).next()            (payload of next over a mapped iterator)
+         rule(base, name) with rule = names.into_iter().next() (call of the iterated rule)
+    The iterator must walk `names` (parameter 3) forward without reordering / skipping adapters."""
     s = repr(t)
-    return t[0] == "proj" and "Iterator>::next" in s and ("param", 3, ()) in flatten(t) and "closure" in s
+    fl = flatten(t)
+    if "Iterator>::next" not in s or ("param", 3, ()) not in fl:
+        return False
+    if any(x[0] == "call" and any(x[1].endswith(a) or (a + "<") in x[1] for a in ORDER_ADAPTERS) for x in fl):
+        return False
+    mapped = t[0] == "proj" and "closure" in s
+    called = t[0] == "call" and re.search(r"ops::Fn(Mut|Once)?<A>>::call(_mut|_once)?$", t[1]) is not None and "Iterator>::next" in repr(t[2][0])
+    return mapped or called
 
 
 def flatten(t):
